@@ -169,9 +169,19 @@ compare_nodes(const struct avl_tree_node *na, const struct avl_tree_node *nb)
 void
 Tokenizer_memoize_bad_route(Tokenizer *self)
 {
+    Tokenizer_memoize_ident(self, self->topstack->ident);
+}
+
+/*
+    Remember an ident (a head position and a context) in the bad route cache;
+    Tokenizer_check_route() at that head with that context will fail.
+*/
+void
+Tokenizer_memoize_ident(Tokenizer *self, StackIdent ident)
+{
     route_tree_node *node = malloc(sizeof(route_tree_node));
     if (node) {
-        node->id = self->topstack->ident;
+        node->id = ident;
         if (avl_tree_insert(&self->bad_routes, &node->node, compare_nodes)) {
             free(node);
         }
